@@ -1,6 +1,8 @@
 /-
-  Per-chain parameters (reference table).  Tied to /repo by T1: `Tables/Chain.lean` proves the table
-  regenerated from the working tree equal to this one, entry by entry.
+  Per-chain parameters (reference table), restricted to the fields some property depends on.  Tied to /repo
+  by T1: `Tables/ChainPow|ChainNet|ChainAddr.lean` prove the projections of the table regenerated from the
+  working tree equal to those of this one (split so that a change to one field family does not touch
+  properties that do not use it).
   Mathlib-free (linked into btcmodel).
 -/
 import BtcVerif.Basic.Bytes
@@ -10,45 +12,33 @@ namespace BtcVerif.Spec
 structure ChainParams where
   name : String
   messageStart : List Nat        -- 4 magic bytes
-  defaultPort : Nat
-  rpcPort : Nat
   pubkeyAddr : Nat               -- base58 version bytes
   scriptAddr : Nat
   secretKey : Nat
   bech32Hrp : String
   maxMoney : Nat
   powLimit : Nat
-  subsidyHalvingInterval : Nat
-  genesisHash : String           -- hex of GetHash() (internal byte order)
 deriving DecidableEq, Repr
 
 def mainnet : ChainParams :=
-  { name := "mainnet", messageStart := [0xf9, 0xbe, 0xb4, 0xd9], defaultPort := 8333, rpcPort := 8332,
+  { name := "mainnet", messageStart := [0xf9, 0xbe, 0xb4, 0xd9],
     pubkeyAddr := 0, scriptAddr := 5, secretKey := 128, bech32Hrp := "bc",
-    maxMoney := 21000000 * 100000000, powLimit := (2 ^ 256 - 1) / 2 ^ 32,
-    subsidyHalvingInterval := 210000,
-    genesisHash := "6fe28c0ab6f1b372c1a6a246ae63f74f931e8365e15a089c68d6190000000000" }
+    maxMoney := 21000000 * 100000000, powLimit := (2 ^ 256 - 1) / 2 ^ 32 }
 
 def testnet : ChainParams :=
-  { name := "testnet", messageStart := [0x0b, 0x11, 0x09, 0x07], defaultPort := 18333, rpcPort := 18332,
+  { name := "testnet", messageStart := [0x0b, 0x11, 0x09, 0x07],
     pubkeyAddr := 111, scriptAddr := 196, secretKey := 239, bech32Hrp := "tb",
-    maxMoney := 21000000 * 100000000, powLimit := (2 ^ 256 - 1) / 2 ^ 32,
-    subsidyHalvingInterval := 210000,
-    genesisHash := "43497fd7f826957108f4a30fd9cec3aeba79972084e90ead01ea330900000000" }
+    maxMoney := 21000000 * 100000000, powLimit := (2 ^ 256 - 1) / 2 ^ 32 }
 
 def signet : ChainParams :=
-  { name := "signet", messageStart := [0x0a, 0x03, 0xcf, 0x40], defaultPort := 38333, rpcPort := 38332,
+  { name := "signet", messageStart := [0x0a, 0x03, 0xcf, 0x40],
     pubkeyAddr := 111, scriptAddr := 196, secretKey := 239, bech32Hrp := "tb",
-    maxMoney := 21000000 * 100000000, powLimit := (2 ^ 256 - 1) / 2 ^ 32,
-    subsidyHalvingInterval := 210000,
-    genesisHash := "f61eee3b63a380a477a063af32b2bbc97c9ff9f01f2c4225e973988108000000" }
+    maxMoney := 21000000 * 100000000, powLimit := (2 ^ 256 - 1) / 2 ^ 32 }
 
 def regtest : ChainParams :=
-  { name := "regtest", messageStart := [0xfa, 0xbf, 0xb5, 0xda], defaultPort := 18444, rpcPort := 18443,
+  { name := "regtest", messageStart := [0xfa, 0xbf, 0xb5, 0xda],
     pubkeyAddr := 111, scriptAddr := 196, secretKey := 239, bech32Hrp := "bcrt",
-    maxMoney := 21000000 * 100000000, powLimit := (2 ^ 256 - 1) / 2,
-    subsidyHalvingInterval := 150,
-    genesisHash := "06226e46111a0b59caaf126043eb5bbf28c34f3a5e332a1fc7b2b73cf188910f" }
+    maxMoney := 21000000 * 100000000, powLimit := (2 ^ 256 - 1) / 2 }
 
 def chainTable : List ChainParams := [mainnet, testnet, signet, regtest]
 
